@@ -208,3 +208,51 @@ void inst(){
         else:
             rep.ok("S5-by-name", key, "only named access")
     rep.floor("obligations:S5", 12)
+    grey_thresholds(rep, d["functions"])
+
+
+def grey_thresholds(rep, fns):
+    """S6: rgb->hsv drops the hue when saturation < t_f, hsv->rgb ignores the hue when |saturation| < t_b. The two
+    decisions must agree on every 8-bit pixel, otherwise a pixel whose hue was dropped is rebuilt with hue 0."""
+    from .ast import rules as R
+    rep.rule("S6 the grey thresholds of rgb->hsv (hue dropped) and hsv->rgb (hue ignored) select the same set of 8-bit pixels: no pixel has "
+             "(max-min)/max between the two constants")
+    tf = tb = None
+    wf = wb = None
+    for f in fns:
+        if not f["file"].endswith("color_spaces/hsv.hpp"):
+            continue
+        sig = f["full"].split("default_color_converter_impl")[1]
+        fwd = sig.replace(" ", "").startswith("<boost::mp11::mp_list<boost::gil::red_t")
+        for x, _ in R.find(f["body"], lambda x: x.get("k") == "Binary" and x.get("op") == "<"):
+            lk, r = R.key(x["l"]), R.strip(x["r"])
+            val = r.get("v") if r.get("k") in ("Float", "Int") else r.get("const")
+            if val is None:
+                continue
+            try:
+                val = float(val)
+            except ValueError:
+                continue
+            if fwd and lk in ("saturation", "saturation.operator float()"):
+                tf, wf = val, "%s:%s" % (C.repo_rel(f["file"]), x.get("line"))
+            if not fwd and "saturation_t" in lk and "abs" in lk:
+                tb, wb = val, "%s:%s" % (C.repo_rel(f["file"]), x.get("line"))
+    rep.count("obligations:S6")
+    if tf is None or tb is None:
+        rep.fail_analysis("S6: grey threshold comparisons of the hsv converters not found (forward %s, backward %s)" % (tf, tb))
+        return
+    lo, hi = min(tf, tb), max(tf, tb)
+    wit = None
+    if lo != hi:
+        for mx in range(1, 256):
+            for diff in range(1, mx + 1):
+                if lo <= diff / mx < hi:
+                    wit = {"pixel": [mx - diff, mx, mx], "saturation": diff / mx}
+                    break
+            if wit:
+                break
+    if wit is None:
+        rep.ok("S6-grey-threshold", "S6:hsv", {"rgb->hsv": tf, "hsv->rgb": tb})
+    else:
+        rep.violation("S6-grey-threshold", "S6:hsv", wf + " vs " + wb, {"rgb->hsv drops hue below": tf, "hsv->rgb ignores hue below": tb, "witness": wit,
+                                                                      "problem": "for this pixel the forward conversion discards the hue but the backward conversion still uses it (as 0): rgb8 -> hsv -> rgb8 does not return the pixel"})
